@@ -38,6 +38,7 @@ fn build(w: &mut dyn WorldApi, slot: Slot, is_set: bool, ops: &[Op]) -> Model {
 pub fn run_pool(w: &mut dyn WorldApi, g: &mut Gen, ev: &mut Ev, is_set: bool, replay: serde_json::Value) {
     const N: usize = 40;
     w.reset(N + 2, N + 2);
+    let value_skew = w.value_accounting().map_or(0, |(l, p)| l - p as i64);
     let slot = |i: usize| if is_set { Slot::Set(i) } else { Slot::Map(i) };
     let mut members: Vec<Member> = Vec::new();
     let mut next = 0usize;
@@ -195,6 +196,15 @@ pub fn run_pool(w: &mut dyn WorldApi, g: &mut Gen, ev: &mut Ev, is_set: bool, re
                 Ok(_) => {}
                 Err(p) => {
                     ev.violation(&format!("C19/roundtrip-panic/{:?}", std::mem::discriminant(&how)), format!("[{}] {:?} panicked: {} at {}", kind, how, p.msg, p.site()), replay.clone());
+                    return;
+                }
+            }
+            // clones / rebuilt maps own their values: as many values alive as the maps hold
+            if let Some((alive, phys)) = w.value_accounting() {
+                ev.count("roundtrip/value_accounting_checks", 1);
+                if alive - phys as i64 != value_skew {
+                    let kindv = if alive - phys as i64 > value_skew { "leaked" } else { "owned-twice" };
+                    ev.violation(&format!("C19/values/{}/{}", kindv, crate::hist::op_name(&Op::Replace(how.clone()))), format!("[{}] after {:?} of {}: {} values alive in the process, {} held in the arenas of all maps (the copy is not independent of the original, or values were lost)", kind, how, mem.how, alive, phys), replay.clone());
                     return;
                 }
             }
